@@ -142,7 +142,7 @@ def charpath(D, include_diagonal=False, include_infinite=True):
     the distance matrix D, excludings any 'Infs' but including distances on
     the main diagonal.
     '''
-    D = D.copy()
+    D = np.array(D, dtype=float)  # a float copy: nan is stored below (an integer distance matrix raised)
 
     if not include_diagonal:
         np.fill_diagonal(D, np.nan)
